@@ -195,9 +195,10 @@ func registerSync() {
 		return nil, true
 	}
 
-	// Pool: never reuses (Get returns New()).
-	I["(*sync.Pool).Get"] = func(in *Interp, th *Thread, fn *ssa.Function, args []Value, d func(Value)) (Value, bool) {
-		c := in.cellOf(args[0], "Pool.Get")
+	// Pool: by default never reuses (Get returns New(), which the sync.Pool contract allows). With the
+	// harness directive //verif:poolreuse Get nondeterministically returns any object Put earlier
+	// (every choice explored) or a fresh one.
+	poolNew := func(in *Interp, th *Thread, c *Cell, d func(Value)) (Value, bool) {
 		st := c.Typ.Underlying().(*types.Struct)
 		for i := 0; i < st.NumFields(); i++ {
 			if st.Field(i).Name() == "New" {
@@ -211,7 +212,29 @@ func registerSync() {
 		}
 		return IfaceV{}, true
 	}
+	I["(*sync.Pool).Get"] = func(in *Interp, th *Thread, fn *ssa.Function, args []Value, d func(Value)) (Value, bool) {
+		c := in.cellOf(args[0], "Pool.Get")
+		if in.cfg.PoolReuse {
+			if items, _ := in.side[c].([]Value); len(items) > 0 {
+				k := in.choose(len(items)+1, "pool")
+				if k > 0 {
+					v := items[k-1]
+					rest := append(append([]Value{}, items[:k-1]...), items[k:]...)
+					in.side[c] = rest
+					return v, true
+				}
+			}
+		}
+		return poolNew(in, th, c, d)
+	}
 	I["(*sync.Pool).Put"] = func(in *Interp, th *Thread, fn *ssa.Function, args []Value, d func(Value)) (Value, bool) {
+		if in.cfg.PoolReuse {
+			c := in.cellOf(args[0], "Pool.Put")
+			if iv, ok := args[1].(IfaceV); ok && iv.T != nil {
+				items, _ := in.side[c].([]Value)
+				in.side[c] = append(append([]Value{}, items...), iv)
+			}
+		}
 		return nil, true
 	}
 	I["sync.runtime_registerPoolCleanup"] = func(in *Interp, th *Thread, fn *ssa.Function, args []Value, d func(Value)) (Value, bool) {
